@@ -1,0 +1,77 @@
+// Add-only export shim (build tag verif): a read-only view of the internal
+// state of a Reader, so that the verification harness can compare it field by
+// field with the implementation-level model (coq/Brotli/Impl.v) after every
+// Read call. Nothing here is compiled in a normal build.
+
+//go:build verif
+// +build verif
+
+package brotli
+
+import (
+	"fmt"
+	"reflect"
+)
+
+func verifStepName(f func(*Reader)) string {
+	if f == nil {
+		return "nil"
+	}
+	p := reflect.ValueOf(f).Pointer()
+	switch p {
+	case reflect.ValueOf((*Reader).readStreamHeader).Pointer():
+		return "streamHeader"
+	case reflect.ValueOf((*Reader).readBlockHeader).Pointer():
+		return "blockHeader"
+	case reflect.ValueOf((*Reader).readRawData).Pointer():
+		return "rawData"
+	case reflect.ValueOf((*Reader).readCommands).Pointer():
+		return "commands"
+	case reflect.ValueOf((*Reader).readMetaData).Pointer():
+		return "metaData"
+	case reflect.ValueOf((*Reader).readPrefixCodes).Pointer():
+		return "prefixCodes"
+	}
+	return "unknown"
+}
+
+func verifBlk(bd *blockDecoder) string {
+	return fmt.Sprintf("%d:%d:%d:%d:%d", bd.numTypes, bd.typeLen, bd.types[0], bd.types[1], len(bd.prefixes))
+}
+
+// VerifReaderState dumps the fields of the Reader that persist between Read
+// calls: step, stepState, blkLen, insLen, cpyLen, last, the three block
+// decoders (numTypes:typeLen:types[0]:types[1]:len(prefixes)), len(litMapType),
+// len(litMap), cmode, len(distMapType), len(distMap), dist, dists, distZero, npostfix, ndirect, len(word),
+// (mtf.tail is not exported by package internal and is left out; len(toRead) follows from the
+// bytes returned);
+// then the bit reader (bufBits:numBits:offset:len(bufPeek):discardBits:fedBits)
+// and the window (len(hist):wrPos:rdPos:full).
+func VerifReaderState(br *Reader) string {
+	b2i := func(b bool) int {
+		if b {
+			return 1
+		}
+		return 0
+	}
+	return fmt.Sprintf("%s:%d;%d:%d:%d:%d;%s;%s;%s;%d:%d:%d;%d:%d;%d:%d:%d:%d:%d:%d;%d:%d;%d;%d:%d:%d:%d:%d:%d;%d:%d:%d:%d",
+		verifStepName(br.step), br.stepState,
+		br.blkLen, br.insLen, br.cpyLen, b2i(br.last),
+		verifBlk(&br.iacBlk), verifBlk(&br.litBlk), verifBlk(&br.distBlk),
+		len(br.litMapType), len(br.litMap), br.cmode,
+		len(br.distMapType), len(br.distMap),
+		br.dist, br.dists[0], br.dists[1], br.dists[2], br.dists[3], b2i(br.distZero),
+		br.npostfix, br.ndirect,
+		len(br.word),
+		br.rd.bufBits, br.rd.numBits, br.rd.offset, len(br.rd.bufPeek), br.rd.discardBits, br.rd.fedBits,
+		len(br.dict.hist), br.dict.wrPos, br.dict.rdPos, b2i(br.dict.full))
+}
+
+// VerifIsBuffered reports whether the Reader's bit reader uses the
+// Peek/Discard path, and the size of the bufio.Reader it reads from.
+func VerifIsBuffered(br *Reader) (bool, int) {
+	if br.rd.bufRd == nil {
+		return false, 0
+	}
+	return true, br.rd.bufRd.Size()
+}
